@@ -140,6 +140,13 @@ def run(F, R):
     # the observer end: every value the installer reports is put on the channel, unconditionally and unchanged
     ob = [b for b in c.bodies if b["kind"] == "coroutine" and "::observer::" in b["id"] and "::receive_progress::" in b["id"]]
     fnb = [b for b in c.bodies if b["kind"] == "fn" and "::observer::" in b["id"] and b["id"].endswith("::receive_progress")]
+    named_ = None
+    if fnb and not ob:
+        # `self.send_progress(progress).boxed()`: the async block became a named private async fn
+        hs_ = lib.async_callees(W, BV.of(fnb[0]))
+        if len(hs_) == 1:
+            named_ = hs_[0]
+            ob = [named_[2].body]
     if R.floor("C13-R4", "ProgressObserver::receive_progress of the state machine's observer", min(len(ob), len(fnb)), 1):
         ov = BV.of(ob[0])
         fv = BV.of(fnb[0])
@@ -153,6 +160,10 @@ def run(F, R):
         capt = re.search(r"\{closure#0\}\{([^}]*)\}", caps)
         cap_list = [x.strip() for x in capt.group(1).split(",")] if capt else []
         same = bool(m_) and int(m_.group(1)) < len(cap_list) and cap_list[int(m_.group(1))] == "param3"
+        if named_ is not None and sends:
+            up_ = lib.async_param_to_arg(W, fv, named_[1], ov, [x for x in walk(ov.trace_op(sends[0][1]["args"][1])) if x[0] == "agg"][0][3][0] if [x for x in walk(ov.trace_op(sends[0][1]["args"][1])) if x[0] == "agg"] else ("undef",))
+            same = up_ is not None and lib.strip_refs(up_) == ("param", 3)
+            cap_list = ["(named async fn) progress <- %s" % (fmt_t(up_) if up_ is not None else "?")]
         no_branch = not any(ov.blocks[bi]["t"]["k"] == "switch" and ov.switch_subject(bi) is None and bi in ov.reach_from([0], avoid=[sends[0][0]]) for bi in ov.reach0) if sends else False
         R.check("C13-R4", "observer-sends-every-value", always and same, "receive_progress sends InstallProgress{progress} for every value, before anything else",
                 "the observer does not put every reported value on the channel unconditionally and unchanged (send on every path: %s, value: %s, captured: %s, no test before the send: %s)" % (always, val[:80], cap_list, no_branch), lib.loc(ov, sends[0][0]) if sends else None)
